@@ -197,9 +197,10 @@ def gen_scheme(rng, family=None, max_pairs=200):
         b = [0, 1, K, K ** 2, K ** 3, K ** 4]
         t = [K ** 5, K ** 5, 0, K ** 6, K ** 6, K ** 7]
         return {"b": b, "t": t, "scale": 1, "family": family}
-    if family == "fine":
+    if family in ("fine", "close"):
         # scores that differ by less than the library's 0.001 tolerances: penalties on the grid 1/4096 around the presets
-        s = 4096
+        # ("close": grid 1/2^18, i.e. differences of 4e-6 — above the 1e-6 of C04, below numpy.isclose's relative 1e-5)
+        s = 4096 if family == "fine" else 1 << 18
         p = rng.choice([2048, 2047, 2049, 2046, 2050, 4095, 4097, 1, 2])
         q = rng.choice([p, p, p + rng.choice([-1, 1, 2])])
         kind = rng.choice(["unifying", "pseudo", "induced"])
